@@ -19,7 +19,7 @@ MUTANTS = {
     "c37-exclusion-ignores-messages": (F + "coins_query.rs", "CoinsToSpendIndexKey::Message { nonce, .. } => exclude.contains_message(nonce),", "CoinsToSpendIndexKey::Message { nonce, .. } => exclude.contains_message(nonce) && false,"),
     "c37-dust-does-not-stop": (F + "coins_query.rs", "        coin == last_big_coin\n", "        coin == last_big_coin && false\n"),
     "c37-largest-first-off-by-one": (F + "coins_query.rs", "        if coins.len() >= max as usize {\n            if allow_partial {", "        if coins.len() > max as usize {\n            if allow_partial {"),
-    "c37-no-truncate": (F + "coins_query.rs", "        inputs.truncate(max as usize);\n", ""),
+    "c37-truncate-off-by-one": (F + "coins_query.rs", "        inputs.truncate(max as usize);\n", "        inputs.truncate((max as usize).saturating_add(1));\n"),
     "c37-insufficient-when-short-of-double": (F + "coins_query.rs", "        || (selected_big_coins_total < total && !allow_partial)", "        || (selected_big_coins_total < adjusted_total && !allow_partial)"),
     # ---- C36 ------------------------------------------------------------
     "c36-retryable-swapped-on-import": (
